@@ -31,7 +31,7 @@ sys.path.insert(0, str(VERIF / "translator"))
 # properties that depend on that fragment and of no other.
 EXTRA_MODULES = {
     "C01": ["Tie.Plan", "Tie.SeekArith", "Tie.ReadLoops", "Tie.ReadPlanLoop"],
-    "C02": ["Tie.SeekArith", "Tie.ReadLoops"],
+    "C02": ["Tie.SeekArith", "Tie.ReadLoops", "Tie.ReadPlanLoop"],
     "C03": ["Tie.Bits", "Tie.BitsValidation"],
     "C04": ["Tie.Bits", "Tie.SigprocTables", "Tie.SigprocCodec", "Tie.WriterArith"],
     "C05": ["Tie.SigprocTables", "Tie.SigprocCodec"],
@@ -39,7 +39,7 @@ EXTRA_MODULES = {
     "C07": ["Tie.Plan", "Tie.Subband", "Kernels.InvertFreq", "Kernels.MaskChannels", "Kernels.Subband",
             "Kernels.RemoveZerodm", "Kernels.Downsample2d"],
     "C08": ["Tie.HeaderUpdates"],
-    "C09": ["Tie.Dedisperse", "Tie.Subband", "Kernels.Dedisperse", "Kernels.Subband", "Kernels.RollBlock", "Kernels.DmtBlock", "Tie.DmLaw", "Tie.DedispBlock"],
+    "C09": ["Tie.Dedisperse", "Tie.Subband", "Kernels.Dedisperse", "Kernels.Subband", "Kernels.RollBlock", "Kernels.DmtBlock", "Tie.DmLaw", "Tie.DedispBlock", "Tie.BlockCalls"],
     "C10": ["Tie.Moments", "Tie.ChannelStats"],
     "C11": ["Tie.Plan", "Tie.Fold", "Kernels.Fold"],
     "C12": ["Tie.FftLengths"],
